@@ -376,8 +376,12 @@ func (c *channel) reconnect(maxRetries float64) {
 			return
 		}
 		c.streamCtx, c.cancelStream = context.WithCancel(c.parentCtx)
-		c.gorumsStream, err = c.gorumsClient.NodeStream(c.streamCtx)
+		// keep the old (broken) stream if this fails: the sender may already be
+		// on its way to use it, and must get an error rather than a nil stream.
+		var stream ordering.Gorums_NodeStreamClient
+		stream, err = c.gorumsClient.NodeStream(c.streamCtx)
 		if err == nil {
+			c.gorumsStream = stream
 			c.streamBroken.clear()
 			c.streamMut.Unlock()
 			// wake up the receiver if it is waiting to retry: replies may arrive now
